@@ -138,8 +138,7 @@ func c19Parse(src []byte) (order []string, structs map[string][]c19Field, err er
 			order = append(order, ts.Name.Name)
 			var fs []c19Field
 			for _, fl := range st.Fields.List {
-				
-				
+
 				typ := string(src[fset.Position(fl.Type.Pos()).Offset:fset.Position(fl.Type.End()).Offset])
 				tag := ""
 				if fl.Tag != nil {
